@@ -108,6 +108,55 @@ fn run_stream(filters: &[Filter], msgs: &[DltMessage], s: &[usize]) -> Result<St
     }))
 }
 
+/// second mode "paced producer": filter_as_streams runs on its own thread while the producer pauses before the first
+/// and after each of the first messages, sends the rest at once and then drops the sender. The result of correct code
+/// does not depend on the pacing; a filter that stops when its input is momentarily empty loses messages here.
+const PACE_MS: u64 = 15;
+const PACED_PAUSES: usize = 3;
+fn run_stream_paced(filters: Vec<Filter>, msgs: &[DltMessage], s: &[usize]) -> Result<StreamObs, String> {
+    let input: Vec<DltMessage> = s.iter().enumerate().map(|(p, k)| {
+        let mut m = msgs[*k - 1].clone();
+        m.index = (p + 1) as u32;
+        m
+    }).collect();
+    let orig = input.clone();
+    let (tx, rx) = channel();
+    let (tx2, rx2) = channel();
+    let h = std::thread::spawn(move || {
+        let r = catch(std::panic::AssertUnwindSafe(|| filter_as_streams(&filters, &rx, &|m| tx2.send(m)).map_err(|e| format!("{:?}", e))));
+        drop(tx2);
+        r
+    });
+    std::thread::sleep(std::time::Duration::from_millis(PACE_MS));
+    for (p, m) in input.into_iter().enumerate() {
+        let _ = tx.send(m); // a receiver that is gone already shows up as missing messages
+        if p < PACED_PAUSES {
+            std::thread::sleep(std::time::Duration::from_millis(PACE_MS));
+        }
+    }
+    drop(tx);
+    let ret = match h.join() {
+        Ok(Ok(r)) => r,
+        Ok(Err(p)) => return Err(p),
+        Err(_) => return Err("filter thread panicked".to_string()),
+    };
+    let mut fwd = Vec::new();
+    for m in rx2.iter() {
+        let p = m.index as usize;
+        if p >= 1 && p <= orig.len() {
+            fwd.push((p, orig[p - 1] == m));
+        } else {
+            fwd.push((0, false));
+        }
+    }
+    Ok(StreamObs { fwd, ret })
+}
+
+/// no enabled positive or negative filter: only disabled, marker and event filters (or no filter at all)
+fn inert_only(fs: &[AFilter]) -> bool {
+    !fs.iter().any(|f| f.enabled && (f.kind == 0 || f.kind == 1))
+}
+
 struct Out {
     t: Trace,
     case: u64,
@@ -125,7 +174,7 @@ struct Pred {
     fwd: Vec<(Vec<usize>, usize, usize)>, // per stream: positions, passed, filtered
 }
 
-fn run_case(o: &mut Out, fs: &[AFilter], amsgs: &[AMsg], streams: &[Vec<usize>], pred: Option<&Pred>, sampled: bool, dlf_style: u32, src: &str) {
+fn run_case(o: &mut Out, fs: &[AFilter], amsgs: &[AMsg], streams: &[Vec<usize>], pred: Option<&Pred>, sampled: bool, dlf_style: u32, src: &str, paced: Option<(usize, Result<StreamObs, String>)>) {
     let case = o.case;
     o.case += 1;
     let msgs: Vec<DltMessage> = amsgs.iter().enumerate().map(|(i, m)| mk_dlt_msg(i as u32 + 1, m)).collect();
@@ -164,8 +213,14 @@ fn run_case(o: &mut Out, fs: &[AFilter], amsgs: &[AMsg], streams: &[Vec<usize>],
     match list {
         Err(e) => failed = Some(format!("filter list ({}): {}", how, e)),
         Ok(filters) => {
-            for (si, s) in streams.iter().enumerate() {
-                match run_stream(&filters, &msgs, s) {
+            let mut runs: Vec<(usize, bool, Result<StreamObs, String>)> = streams.iter().enumerate().map(|(si, s)| (si, false, run_stream(&filters, &msgs, s))).collect();
+            if let Some((si, ob)) = paced {
+                o.bump(if inert_only(fs) { "paced_runs_inert_only_sets" } else { "paced_runs_active_sets" }, 1);
+                runs.push((si, true, ob));
+            }
+            for (si, is_paced, run) in runs {
+                let s = &streams[si];
+                match run {
                     Err(p) => evs.push(json!({"ev":"panic","msg":p})),
                     Ok(ob) => {
                         let pos: Vec<usize> = ob.fwd.iter().map(|x| x.0).collect();
@@ -178,7 +233,7 @@ fn run_case(o: &mut Out, fs: &[AFilter], amsgs: &[AMsg], streams: &[Vec<usize>],
                             if d { drift += 1 } else { fast += 1 }
                         }
                         if d || sampled {
-                            evs.push(json!({"ev":"stream","s":s,"filters_from":how}));
+                            evs.push(json!({"ev":"stream","s":s,"filters_from":how,"paced_producer":is_paced}));
                             for (p, i) in &ob.fwd {
                                 evs.push(json!({"ev":"fwd","pos":p,"intact":i}));
                             }
@@ -228,6 +283,48 @@ fn main() {
         while (sampled.len() as u64) < sample.min(total as u64) {
             sampled.insert(rng.below(total as u64) as usize);
         }
+        // paced-producer runs (pre-pass, many in parallel because they mostly sleep): every set without an enabled
+        // positive/negative filter and every `paced_every`-th other set, on the stream `paced_stream`
+        let paced_every = a.num("--paced-every", 10) as usize;
+        let paced_stream = (a.num("--paced-stream", streams.len() as u64) as usize).min(streams.len()) - 1;
+        let dms: Vec<DltMessage> = amsgs.iter().enumerate().map(|(i, m)| mk_dlt_msg(i as u32 + 1, m)).collect();
+        let style_of = |i: usize| [2u32, 0, 1, 2][i % 4];
+        let mut jobs: Vec<(usize, Vec<Filter>)> = Vec::new();
+        if paced_every > 0 {
+            for (i, l) in lines(file).enumerate() {
+                let s: Value = serde_json::from_str(&l).expect("scenario");
+                let items: Vec<usize> = serde_json::from_value(s["items"].clone()).expect("items");
+                let fs: Vec<AFilter> = items.iter().map(|j| pool[*j - 1].clone()).collect();
+                if inert_only(&fs) || i % paced_every == 0 {
+                    if let (Ok(list), _) = filter_list(&fs, style_of(i)) {
+                        jobs.push((i, list));
+                    }
+                }
+            }
+        }
+        let mut paced_obs: std::collections::HashMap<usize, Result<StreamObs, String>> = Default::default();
+        {
+            let nthreads = 32usize;
+            let jobs = std::sync::Mutex::new(jobs);
+            let res = std::sync::Mutex::new(Vec::new());
+            std::thread::scope(|sc| {
+                for _ in 0..nthreads {
+                    sc.spawn(|| loop {
+                        let job = jobs.lock().unwrap().pop();
+                        match job {
+                            Some((i, list)) => {
+                                let ob = run_stream_paced(list, &dms, &streams[paced_stream]);
+                                res.lock().unwrap().push((i, ob));
+                            }
+                            None => break,
+                        }
+                    });
+                }
+            });
+            for (i, ob) in res.into_inner().unwrap() {
+                paced_obs.insert(i, ob);
+            }
+        }
         for (i, l) in lines(file).enumerate() {
             let s: Value = serde_json::from_str(&l).expect("scenario");
             let items: Vec<usize> = serde_json::from_value(s["items"].clone()).expect("items");
@@ -238,13 +335,14 @@ fn main() {
                     (serde_json::from_value(x["pos"].clone()).expect("pos"), x["passed"].as_u64().unwrap() as usize, x["filtered"].as_u64().unwrap() as usize)
                 }).collect(),
             };
-            run_case(&mut o, &fs, &amsgs, &streams, Some(&pred), sampled.contains(&i), [2, 0, 1, 2][i % 4], "tlc");
+            let paced = paced_obs.remove(&i).map(|ob| (paced_stream, ob));
+            run_case(&mut o, &fs, &amsgs, &streams, Some(&pred), sampled.contains(&i), style_of(i), "tlc", paced);
             o.bump("scenarios", 1);
         }
     }
     let nchars = a.num("--nchars", 3);
     let max_len = a.num("--max-len", 40);
-    for _ in 0..a.num("--random", 0) {
+    for ri in 0..a.num("--random", 0) {
         let mut fs: Vec<AFilter> = Vec::new();
         for kind in 0..4u32 {
             for _ in 0..rng.below(4) {
@@ -295,7 +393,13 @@ fn main() {
             }
             st
         }).collect();
-        run_case(&mut o, &fs, &amsgs, &streams, None, true, 0, "random");
+        let paced = if (ri as u64) < a.num("--paced-random", 0) && !streams[0].is_empty() {
+            let dms: Vec<DltMessage> = amsgs.iter().enumerate().map(|(i, m)| mk_dlt_msg(i as u32 + 1, m)).collect();
+            filter_list(&fs, 0).0.ok().map(|list| (0usize, run_stream_paced(list, &dms, &streams[0])))
+        } else {
+            None
+        };
+        run_case(&mut o, &fs, &amsgs, &streams, None, true, 0, "random", paced);
         o.bump("random_cases", 1);
     }
     o.t.flush();
